@@ -228,7 +228,7 @@ func Finish(verifDir, prop, tier string, seed int64, level, rule string, assumpt
 		f.Assumptions = []string{}
 	}
 	b, _ := json.MarshalIndent(f, "", " ")
-	evDir := filepath.Join(verifDir, "evidence")
+	evDir := filepath.Join(outDir(verifDir), "evidence")
 	os.MkdirAll(evDir, 0o755)
 	if err := os.WriteFile(filepath.Join(evDir, prop+".json"), append(b, '\n'), 0o644); err != nil {
 		fmt.Fprintf(os.Stderr, "cannot write evidence: %v\n", err)
@@ -257,6 +257,15 @@ func Finish(verifDir, prop, tier string, seed int64, level, rule string, assumpt
 	return 0
 }
 
+// outDir is where evidence and replays go: the verif directory, unless VERIF_OUT_DIR says
+// otherwise (runs against a scratch copy of the repository must not overwrite the evidence).
+func outDir(verifDir string) string {
+	if d := os.Getenv("VERIF_OUT_DIR"); d != "" {
+		return d
+	}
+	return verifDir
+}
+
 func oneLine(s string) string {
 	s = strings.ReplaceAll(s, "\n", " ⏎ ")
 	if len(s) > 600 {
@@ -266,7 +275,7 @@ func oneLine(s string) string {
 }
 
 func writeReplay(verifDir, prop string, v *Violation) string {
-	dir := filepath.Join(verifDir, "replays")
+	dir := filepath.Join(outDir(verifDir), "replays")
 	os.MkdirAll(dir, 0o755)
 	h := sha256.Sum256([]byte(v.Key))
 	path := filepath.Join(dir, fmt.Sprintf("%s-%s.json", prop, hex.EncodeToString(h[:6])))
